@@ -181,6 +181,35 @@ def run(ck: Check) -> None:
                          {"canonical_size": len(data), "signature_is_rfc8032_over_canonical_bytes": sig == want, "serialize_and_sign_same": direct == want,
                           "verify_signable": verdict, "verify_signature_of_reference_signature": prim}, "sized:roundtrip")
             break
+    # two signers at work on one envelope at the same time (threads; every sampled schedule in which the two calls overlap without nesting, and with nesting):
+    # each touches its own entry only, so both entries are there afterwards and are the ones sequential signing gives
+    import os as _os
+    from .. import sched
+    repo_pkg = _os.path.join(_os.path.realpath(_os.environ.get("CCT_REPO", "/repo")), "conda_content_trust") + _os.sep
+    ka, kb = gen.key(5), gen.key(6)
+    pa, pb = impl.common.PrivateKey.from_bytes(ka.seed), impl.common.PrivateKey.from_bytes(kb.seed)
+    payload = {"name": "shared", "n": [1, 2, {"x": 1.5}]}
+    data = gen.oracle_bytes(payload)
+    ref = {"signatures": {ka.hex: gen.raw_entry(ka, data), kb.hex: gen.raw_entry(kb, data), "junk": "x"}, "signed": payload}
+    _, na = sched.count_events(lambda: impl.signing.sign_signable({"signatures": {}, "signed": payload}, pa), repo_pkg)
+    nsched = 0
+    with impl.quiet_stdout():
+        for k1 in range(1, na + 1):
+            for k2 in sorted({1, max(1, na // 2), na}):
+                env = {"signatures": {"junk": "x"}, "signed": copy.deepcopy(payload)}
+                sched.staggered(lambda: impl.signing.sign_signable(env, pa), lambda: impl.signing.sign_signable(env, pb), k1, k2, repo_pkg)
+                nsched += 1
+                ck.evaluations += 1
+                ck.oracle_checks += 1
+                if not proto.deep_equal(env, ref):
+                    ck.violation("two signers signing one envelope concurrently: a signer's call touched more than its own entry (an entry is missing or altered afterwards)",
+                                 {"first_signer_stopped_after_steps": k1, "second_signer_stopped_after_steps": k2, "entries_present": sorted(env["signatures"]),
+                                  "entries_expected": sorted(ref["signatures"])}, "concurrent-signers")
+                    break
+            else:
+                continue
+            break
+    ck.count("staggered-signing-schedules", nsched)
     # wrong kinds of key
     bad = [Case("sign", [gen.envelope({"a": 1}), x], tag="sign-bad-key") for x in [None, "ab" * 32, b"\x01" * 32, 5, proto.Opaque(0)]]
     bad += [Case("sign", [x, proto.KeyObj(True, gen.key(1).seed)], tag="sign-bad-envelope") for x in [None, {"signed": 1}, {"signatures": [], "signed": 1}, [], "x", {"signatures": {}, "signed": 1, "extra": 2}]]
